@@ -30,6 +30,7 @@ type Config struct {
 	ClockMode        string // "", "mono", "wall"
 	AllocLimit       int64  // max heap cells allocated per path (0 = none)
 	SecondSolver     string // thorough: cross-check final obligations
+	MaxDecisions     int    // per-path cap on decisions
 	ExploreSchedules bool   // scheduler choices at synchronisation points are explorer decisions
 	MaxPreemptions   int
 }
@@ -111,6 +112,9 @@ type Engine struct {
 	Assumed    map[string]bool
 	Traces     []ConcTrace
 	Mon        *MonitorLog
+
+	firstViolation time.Time
+	StoppedEarly   bool
 }
 
 type ConcTrace struct {
@@ -349,6 +353,11 @@ func (w *Worker) nextPrefix(kind byte) (Decision, bool) {
 }
 
 func (w *Worker) pushSibling(d Decision) {
+	if len(w.taken) > w.E.Cfg.MaxDecisions {
+		// a chain of forks this deep is a loop over symbolic data: sibling prefixes
+		// are copied per fork, so memory is quadratic in the depth
+		panic(pathAbort{"budget", fmt.Sprintf("more than %d decisions on one path", w.E.Cfg.MaxDecisions)})
+	}
 	alt := make([]Decision, len(w.taken)+1)
 	copy(alt, w.taken)
 	alt[len(w.taken)] = d
@@ -747,6 +756,9 @@ func (w *Worker) reportViolation(kind, label, site, msg string, model map[string
 	if _, ok := w.E.Violations[v.Key()]; !ok {
 		w.E.Violations[v.Key()] = v
 	}
+	if w.E.firstViolation.IsZero() {
+		w.E.firstViolation = time.Now()
+	}
 	w.E.mu.Unlock()
 }
 
@@ -884,6 +896,12 @@ func (w *Worker) runPath(prefix []Decision) {
 	}
 	if w.concrete {
 		w.E.Traces = append(w.E.Traces, ConcTrace{Draws: append([]Draw(nil), w.draws...), Observes: append([]string(nil), w.observes...), Outcome: outcome})
+	}
+	// once a counterexample is in hand the verdict is fixed: do not spend
+	// minutes (or gigabytes) enumerating the rest of a broken tree
+	if !w.E.firstViolation.IsZero() && !w.E.stop && time.Since(w.E.firstViolation) > 30*time.Second {
+		w.E.stop = true
+		w.E.StoppedEarly = true
 	}
 	if w.E.Cfg.MaxPaths > 0 && w.E.Stats.Paths >= w.E.Cfg.MaxPaths && !w.E.stop {
 		w.E.stop = true
